@@ -46,6 +46,10 @@ func H_C04_WiringBlocked() {
 	blocked := app.BlockedAddresses()
 	rt.Assert("C04.enterprise-escrow-blocked", blocked[authtypes.NewModuleAddress(enttypes.ModuleName).String()])
 	rt.Assert("C10.stream-escrow-blocked", blocked[authtypes.NewModuleAddress(streamtypes.ModuleName).String()])
+	// the governance account is the only module account that can raise purchase orders (through an
+	// executed proposal); minting to it must not fail in the begin blocker (H_C03_BeginBlock assumes
+	// purchasers can receive funds)
+	rt.Assert("C14.governance-account-can-receive-minted-efund", !blocked[authtypes.NewModuleAddress("gov").String()])
 	rt.Reach("end")
 }
 
